@@ -8,6 +8,8 @@ var pureFunSpecs = []pfSpec{
 	{pkg: "x/liquidity/amm", fn: "inv", coq: "gen_amm_inv"},
 	{pkg: "x/liquidity/amm", fn: "DeriveTranslation", coq: "gen_amm_DeriveTranslation"},
 	{pkg: "x/liquidity/amm", fn: "ValidateRangedPoolParams", coq: "gen_amm_ValidateRangedPoolParams"},
+	{pkg: "x/liquidity/amm", fn: "NewRangedPool", coq: "gen_amm_NewRangedPool"},
+	{pkg: "x/liquidity/amm", fn: "CreateRangedPool", coq: "gen_amm_CreateRangedPool"},
 	{pkg: "x/liquidity/amm", recv: "RangedPool", fn: "Price", coq: "gen_amm_RangedPool_Price"},
 	{pkg: "x/liquidity/amm", recv: "RangedPool", fn: "BuyAmountOver", coq: "gen_amm_RangedPool_BuyAmountOver"},
 	{pkg: "x/liquidity/amm", recv: "RangedPool", fn: "SellAmountUnder", coq: "gen_amm_RangedPool_SellAmountUnder"},
